@@ -50,7 +50,10 @@ def _merge_stubs_overloads(obj: Module | Class, stubs: Module | Class) -> None:
         if overloads:
             # The runtime member can be an alias that cannot be resolved.
             with suppress(KeyError, AliasResolutionError, CyclicAliasError):
-                obj.get_member(function_name).overloads = overloads
+                function = obj.get_member(function_name)
+                # The runtime member of that name can be of another kind (a class, an attribute).
+                if function.is_function:
+                    function.overloads = overloads
         del stubs.overloads[function_name]
 
 
